@@ -1240,7 +1240,8 @@ Theorem c07_exodus_start_refuted :
       ~ Permutation (map corners (c07_read_exodus_conn vr bs)) (map corners t).
 Proof.
   exists {| vr_copy_template := true; vr_exo_fill := FILL; vr_exo_accumulate := false;
-            vr_exo_deg2rad := true; vr_exo_read_all := true; vr_strip_helpers := true |}, 5%nat,
+            vr_exo_deg2rad := true; vr_exo_read_all := true; vr_strip_helpers := true;
+            vr_scrip_pad := true |}, 5%nat,
          [[0; 1; 2; FILL; FILL]; [2; 3; 4; 5; 6]; [2; 1; 7; FILL; FILL]; [1; 0; 8; 9; FILL]].
   repeat split; try reflexivity.
   eexists. split; [vm_compute; reflexivity|].
@@ -1331,13 +1332,13 @@ Definition c07_scrip_corners (lon lat : list Z) (t : table) : list (list (Z * Z)
    order, same corner order, same corner positions *)
 Theorem c07_scrip_roundtrip m t lon lat :
   Forall (fun r => length r = m /\ Forall (fun i => 0 <= i < Z.of_nat (length lon)) r) t ->
-  exists c d, c07_encode_scrip t lon lat = Some c /\ c07_read_scrip true c = Some d /\
+  exists c d, c07_encode_scrip false t lon lat = Some c /\ c07_read_scrip false true c = Some d /\
     c07_positions (dc_lon d) (dc_lat d) (dc_fnc d) = c07_positions lon lat t /\
     length (dc_fnc d) = length t.
 Proof.
   intros Ht. rewrite Forall_forall in Ht.
   exists (c07_scrip_corners lon lat t).
-  assert (Henc : c07_encode_scrip t lon lat = Some (c07_scrip_corners lon lat t)).
+  assert (Henc : c07_encode_scrip false t lon lat = Some (c07_scrip_corners lon lat t)).
   { unfold c07_encode_scrip, c07_scrip_corners. apply c07_all_some_map. intros r Hr.
     apply c07_all_some_map. intros i Hi. destruct (Ht r Hr) as [_ Hri].
     rewrite Forall_forall in Hri. specialize (Hri i Hi).
@@ -1383,14 +1384,14 @@ Proof.
 Qed.
 
 Example c07_scrip_roundtrip_nonvacuous :
-  exists c d, c07_encode_scrip [[0; 1; 2]; [2; 1; 3]] [10; 30; 20; 40] [7; 5; 6; 5] = Some c
-    /\ c07_read_scrip true c = Some d
+  exists c d, c07_encode_scrip false [[0; 1; 2]; [2; 1; 3]] [10; 30; 20; 40] [7; 5; 6; 5] = Some c
+    /\ c07_read_scrip false true c = Some d
     /\ c07_positions (dc_lon d) (dc_lat d) (dc_fnc d) = [[(10, 7); (30, 5); (20, 6)]; [(20, 6); (30, 5); (40, 5)]].
 Proof. do 2 eexists. repeat split; vm_compute; reflexivity. Qed.
 
 (* a padded row makes the encoder index with the fill value: IndexError *)
 Theorem c07_scrip_mixed_refuted :
-  exists t lon lat, std_tableb 4 t = true /\ c07_encode_scrip t lon lat = None.
+  exists t lon lat, std_tableb 4 t = true /\ c07_encode_scrip false t lon lat = None.
 Proof.
   exists [[0; 1; 2; 3]; [2; 3; 4; FILL]], [0; 1; 2; 3; 4], [5; 6; 7; 8; 9]. split; vm_compute; reflexivity.
 Qed.
